@@ -1,5 +1,6 @@
 (* C06 -- generated mark features make matching anchors coincide. *)
-From U2F Require Import Base.Prelude Geometry.Model Kern.Model Mark.Model Mark.ModelProofs.
+From Coq Require Import List Permutation.
+From U2F Require Import Base.Prelude Geometry.Model Kern.Model Mark.Model Mark.ModelProofs Mark.Color Mark.ColorProofs.
 Open Scope Z_scope.
 
 Theorem C06_no_matching_anchor_no_attachment : forall i bn mn comp b m,
@@ -34,3 +35,18 @@ Example C06_parse_examples :
   parse_anchor_name [95;49] = P_ok (mkParsed false [] (Some 1) false false).
 Proof. exact parse_examples. Qed.
 Print Assumptions C06_parse_examples.
+
+(* grouping mark classes into lookups (groupMarkClasses): the greedy colouring of the conflict graph never puts two
+   conflicting classes (classes sharing a mark glyph) into one group, and every class is in a group -- for every
+   symmetric, loop-free graph given as a dict *)
+Theorem C06_conflicting_mark_classes_are_separated : forall adj,
+  symmetric adj -> irreflexive adj -> NoDup (keys adj) ->
+  proper adj (color_all adj) /\ Permutation (keys (color_all adj)) (keys adj).
+Proof. exact color_all_proper. Qed.
+Print Assumptions C06_conflicting_mark_classes_are_separated.
+
+(* the colour taken is the least one no coloured neighbour has *)
+Theorem C06_first_available_is_least : forall used,
+  ~ In (first_avail used) used /\ (forall k, (k < first_avail used)%nat -> In k used).
+Proof. exact first_avail_least. Qed.
+Print Assumptions C06_first_available_is_least.
